@@ -11,6 +11,13 @@ EXTENDS Terms, IOUtils
 Log == ndJsonDeserialize(IOEnv.TRACE_FILE)
 VARIABLE l
 
+\* Which law applies to a union (strict or weak) is read off the real member routines: an earlier member that takes a
+\* later member's value makes the union ambiguous.  What may be taken over is bounded here: a collection, mapping or
+\* fixed-tuple member takes iterables, records and texts, never a scalar (number, None, date/time, Decimal, UUID, or a
+\* member of an enumeration that is not a text).
+ScalarArg(w) == w.ak \in {"int", "bool", "float", "none", "sc", "date", "dt", "time", "td"} \/ (w.ak = "enum" /\ w.mix # "str")
+ContainerTookScalar(w) == w.mk \in {"coll", "map", "tup"} /\ ScalarArg(w)
+
 Clause(e) ==
   CASE e.ev = "unmarshal" ->
          (IF e.out.k = "raised" THEN "" ELSE Conf(e.T, e.out.r, Defs, "Conforms", FALSE))
@@ -23,6 +30,7 @@ Clause(e) ==
           ELSE IF e.out2.r # e.out1.r THEN "Idempotent.changed" ELSE "")
     [] e.ev = "roundtrip" ->
          (IF ~Exact(e.T, e.v, Defs) THEN "NOTVALID"
+          ELSE IF \E i \in 1..Len(e.ambw) : ContainerTookScalar(e.ambw[i]) THEN "Union.containerMemberTookScalar"
           ELSE IF e.w.k = "raised" THEN "RoundTrip.marshal.raised"
           ELSE IF e.r.k = "raised" THEN "RoundTrip.unmarshal.raised"
           ELSE IF e.w2.k = "raised" THEN "RoundTrip.remarshal.raised"
